@@ -234,6 +234,28 @@ def main():
             ("valid token -> 200", raw_query(srv.port, f'Snowflake Token="{tok}"')[0] == 200),
             ("refused requests create no session", len(srv.mod.sessions) == n_sessions),
         ]
+        # 4. several logins opened BEFORE any of them runs a statement: whatever a login creates (its database, its schema) exists from
+        #    the login on, exactly as with in-process connects - the other sessions' answers depend on it
+        from fakesnow.instance import FakeSnow
+
+        fs_l = FakeSnow()
+        names = [("c17l_a", "s1"), ("c17l_a", "s2"), ("c17l_b", "s1")]
+        hs = [srv.connect(database=d, schema=s_) for d, s_ in names]
+        ins = [fs_l.connect(database=d, schema=s_) for d, s_ in names]
+        login_stmts = [(0, "select schema_name from information_schema.schemata where catalog_name = 'C17L_A' and schema_name like 'S%' order by 1"),
+                       (0, "select database_name from information_schema.databases where database_name like 'C17L%' order by 1"),
+                       (0, "create table s2.t (i int)"), (0, "insert into s2.t values (1), (2)"), (0, "create table c17l_b.s1.u (v varchar)"),
+                       (0, "insert into c17l_b.s1.u values ('x')"), (0, "create schema s2"), (0, "create schema if not exists s2"),
+                       (1, "select * from t order by 1"), (2, "select * from u"), (1, "select current_database() as d, current_schema() as s"),
+                       (2, "select current_database() as d, current_schema() as s")]
+        for who, sql in login_stmts:
+            a, b = outcome(hs[who], sql), outcome(ins[who], sql)
+            ck.cov["evaluations"] += 1
+            ck.count("logins-first")
+            if a != b and not (a[0] == "ok" and b[0] == "ok" and a[2:] == b[2:] and "Decimal:" in str(b[1]) and "int:" in str(a[1]) and "C17-decimal-scale0-int" in known):
+                report(f"three logins {names} opened before any statement, then login {who} runs `{sql}`: over HTTP {a}, in process {b}",
+                       {"logins": names, "statements": [x for x in login_stmts[: login_stmts.index((who, sql)) + 1]], "http": a, "in_process": b})
+        fs_l.duck_conn.close()
         for name, ok in checks:
             ck.cov["evaluations"] += 1
             ck.count("session-check")
@@ -243,7 +265,7 @@ def main():
     return ck.finish(rule="(1) timestamp_to_sf_struct vs the wire model on edge, random and formerly-failing-class timestamps incl. NULL; (2) the same statements through the HTTP server "
                           "with the real connector and in process: rows with python types, rowcount, description, errors (errno, sqlstate, message) - every column type x NULL x edge "
                           "values, timestamps over many microsecond fractions and negative epochs, DML/DDL/SHOW/DESCRIBE/SET/errors; (3) login/query sequences: shared vs isolated instances, "
-                          "per-session context and variables, missing/unknown/empty tokens; non-trivial = statements returning at least one row over HTTP")
+                          "per-session context and variables, missing/unknown/empty tokens; (4) several logins opened before any statement, then statements that depend on what the idle logins created; non-trivial = statements returning at least one row over HTTP")
 
 
 if __name__ == "__main__":
